@@ -195,26 +195,26 @@ func registryIntegrity(c *Ctx, rule string, t *checkTables, typ string) {
 
 // rules that a spec version does not contain by design ("<Spec>/<ID>" → reason)
 var ruleIntroducedLater = map[string]string{
-	"V1Beta1Spec/SYNTAX_SPECIFIED":             "introduced with the v1 rule set",
-	"V1Beta1Spec/IMPORT_USED":                  "introduced with the v1 rule set",
-	"V1Beta1Spec/PACKAGE_NO_IMPORT_CYCLE":      "introduced with the v1 rule set",
-	"V1Beta1Spec/PROTOVALIDATE":                "introduced with the v1 rule set",
+	"V1Beta1Spec/SYNTAX_SPECIFIED":                  "introduced with the v1 rule set",
+	"V1Beta1Spec/IMPORT_USED":                       "introduced with the v1 rule set",
+	"V1Beta1Spec/PACKAGE_NO_IMPORT_CYCLE":           "introduced with the v1 rule set",
+	"V1Beta1Spec/PROTOVALIDATE":                     "introduced with the v1 rule set",
 	"V1Beta1Spec/STABLE_PACKAGE_NO_IMPORT_UNSTABLE": "introduced with the v2 rule set",
-	"V1Spec/STABLE_PACKAGE_NO_IMPORT_UNSTABLE": "introduced with the v2 rule set",
-	"V1Beta1Spec/PACKAGE_EXTENSION_NO_DELETE":  "introduced with the v1 rule set",
-	"V1Beta1Spec/EXTENSION_NO_DELETE":          "introduced with the v1 rule set",
-	"V2Spec/ENUM_FIRST_VALUE_ZERO":             "v1beta1-only rule superseded by ENUM_ZERO_VALUE_SUFFIX semantics",
-	"V1Beta1Spec/FIELD_SAME_DEFAULT":           "introduced with the v2 rule set",
-	"V1Spec/FIELD_SAME_DEFAULT":                "introduced with the v2 rule set",
-	"V1Beta1Spec/FIELD_WIRE_COMPATIBLE_TYPE":   "v1beta1 used FIELD_SAME_TYPE in every category; type-compatibility rules came with v1",
-	"V1Beta1Spec/FIELD_WIRE_JSON_COMPATIBLE_TYPE": "v1beta1 used FIELD_SAME_TYPE in every category; type-compatibility rules came with v1",
-	"V1Spec/EXTENSION_NO_DELETE":               "introduced with the v2 rule set",
-	"V1Beta1Spec/FIELD_NOT_REQUIRED":           "introduced with the v2 rule set",
-	"V1Spec/FIELD_NOT_REQUIRED":                "introduced with the v2 rule set",
-	"V1Spec/FIELD_NO_DESCRIPTOR":               "v1beta1-only rule (dropped from v1 and v2)",
-	"V2Spec/FIELD_NO_DESCRIPTOR":               "v1beta1-only rule (dropped from v1 and v2)",
-	"V1Spec/PACKAGE_EXTENSION_NO_DELETE":       "introduced with the v2 rule set",
-	"V1Spec/ENUM_FIRST_VALUE_ZERO":             "v1beta1-only rule",
+	"V1Spec/STABLE_PACKAGE_NO_IMPORT_UNSTABLE":      "introduced with the v2 rule set",
+	"V1Beta1Spec/PACKAGE_EXTENSION_NO_DELETE":       "introduced with the v1 rule set",
+	"V1Beta1Spec/EXTENSION_NO_DELETE":               "introduced with the v1 rule set",
+	"V2Spec/ENUM_FIRST_VALUE_ZERO":                  "v1beta1-only rule superseded by ENUM_ZERO_VALUE_SUFFIX semantics",
+	"V1Beta1Spec/FIELD_SAME_DEFAULT":                "introduced with the v2 rule set",
+	"V1Spec/FIELD_SAME_DEFAULT":                     "introduced with the v2 rule set",
+	"V1Beta1Spec/FIELD_WIRE_COMPATIBLE_TYPE":        "v1beta1 used FIELD_SAME_TYPE in every category; type-compatibility rules came with v1",
+	"V1Beta1Spec/FIELD_WIRE_JSON_COMPATIBLE_TYPE":   "v1beta1 used FIELD_SAME_TYPE in every category; type-compatibility rules came with v1",
+	"V1Spec/EXTENSION_NO_DELETE":                    "introduced with the v2 rule set",
+	"V1Beta1Spec/FIELD_NOT_REQUIRED":                "introduced with the v2 rule set",
+	"V1Spec/FIELD_NOT_REQUIRED":                     "introduced with the v2 rule set",
+	"V1Spec/FIELD_NO_DESCRIPTOR":                    "v1beta1-only rule (dropped from v1 and v2)",
+	"V2Spec/FIELD_NO_DESCRIPTOR":                    "v1beta1-only rule (dropped from v1 and v2)",
+	"V1Spec/PACKAGE_EXTENSION_NO_DELETE":            "introduced with the v2 rule set",
+	"V1Spec/ENUM_FIRST_VALUE_ZERO":                  "v1beta1-only rule",
 }
 
 func runC03(c *Ctx) {
